@@ -45,6 +45,10 @@ def dd_runs(chk, w, tier, families, extra=None, module="TraceDD", cfg="TraceDD.c
         for tag, line, run in [(d[0], d[1], d[2]) for d in res["devs"]]:
             if tag.startswith("HARNESS"):
                 raise ToolError(f"ill-formed generated instance in {tr} run {run}: the harness is wrong, not the library")
+            if tag.startswith("DIV"):
+                chk.cov["divergences"] += 1
+                log(f"  divergence (no verdict): {tag} at line {line} of {os.path.basename(tr)}")
+                continue
             reset = resets[run]
             # replay = the instance, the diagram type, and the compilation group around the failing line
             grp = evs[max(0, line - 4):line]
